@@ -98,6 +98,22 @@ def spec_races(ctx):
     return items
 
 
+def timeouts(ctx):
+    """a request with a client timeout; borrow_connection on some hosts outlasts it (pool state 7): the walk must stop there
+    without reporting NoHostAvailable for hosts it never tried; before / after a connection was ever borrowed"""
+    items = []
+    for n in (2, 3, 4):
+        for pools in itertools.product((7, 2, 6, 3), repeat=n):
+            if 7 not in pools:
+                continue
+            if n == 4 and ctx.rng.random() < 0.6:
+                continue
+            sc = base(n, list(range(n)), pools, timeout=True, script=[[3, None]] * 8)
+            obs, bad, run = K.drive_sequential(sc, PID, lambda i, prep, tag: [3, 3, tag], max_ops=14)
+            items.append((sc, obs, bad, {'nontrivial': True, 'sample': len(items) == 7}))
+    return items
+
+
 def paged(ctx):
     """paged results: first page answered with a paging state, then one or two further page fetches (each with its own plan
     from the load balancer, or the explicit target again) x pool states x what the hosts answer on the later page"""
@@ -197,6 +213,9 @@ def run(ctx):
     tg = targeted(ctx)
     items += tg
     ctx.count('source', 'explicit_target', len(tg))
+    to = timeouts(ctx)
+    items += to
+    ctx.count('source', 'client_timeout_elapses_in_borrow', len(to))
     pg = paged(ctx)
     items += pg
     ctx.count('source', 'paged_results', len(pg))
